@@ -61,7 +61,7 @@ PROPS = {
         assumptions=["file contents are those of regular files (FIFOs/devices would block open)"],
     ),
     "C16": dict(
-        modules=["Whawty.Props.C16", "Whawty.Props.GenGrammar", "Whawty.Props.GenFiles"],
+        modules=["Whawty.Props.C16", "Whawty.Props.GenGrammar", "Whawty.Props.GenFiles", "Whawty.Props.GenCheckFile"],
         suites=[("hdrv", "c16"), ("overlay4", "v16cli"), ("overlay", "v11s")],
         level_text="check_exact characterises Dir.Check without reference to iteration order (proved from the fold over "
                    "readdir entries), check_perm_invariant gives order independence, init_only_on_empty and "
